@@ -57,7 +57,7 @@ func (c *distCase) expectedPath(r gRec) (string, bool) {
 	}
 	v := na
 	if a, has := r.attr(c.Key); has {
-		v, _ = a.text()
+		v, _ = distText(a)
 	}
 	name := c.Prefix + v + c.ext()
 	if c.DirKey == "" {
@@ -67,7 +67,7 @@ func (c *distCase) expectedPath(r gRec) (string, bool) {
 	if !has {
 		return "", false
 	}
-	d, _ := a.text()
+	d, _ := distText(a)
 	return filepath.Join(d, name), true
 }
 
@@ -181,7 +181,7 @@ func checkDistribute(c distCase) error {
 			}
 			v := "\x00missing"
 			if a, has := r.attr(c.Key); has {
-				v, _ = a.text()
+				v, _ = distText(a)
 			}
 			k := fmt.Sprintf("%s|%v", v, len(r.Attrs) > 0 || r.Def != "")
 			if prev, seen := group[k]; seen && prev != fileOf[r.ID] {
@@ -214,7 +214,18 @@ func checkDistribute(c distCase) error {
 	return nil
 }
 
+// distText: the text of a classifier value as the class / file name shows it: decimals between
+// 0.001 and 1000 are written by the tool as they stand in the file, with all their digits.
+func distText(a gAttr) (string, bool) {
+	if a.Kind == "f" {
+		return gFloatText(a.F), true
+	}
+	return a.text()
+}
+
 var gClassVals = []gAttr{
+	// numbers that differ beyond the 7th significant digit (distinct classes)
+	{Kind: "f", F: 0.123456789}, {Kind: "f", F: 0.123456791}, {Kind: "f", F: 12.3456789}, {Kind: "f", F: 12.3456791}, {Kind: "f", F: 0.5},
 	{Kind: "s", S: "x"}, {Kind: "s", S: "y"}, {Kind: "s", S: "ab"}, {Kind: "s", S: "s1"}, {Kind: "s", S: "3"}, {Kind: "s", S: "na"},
 	{Kind: "i", I: 3}, {Kind: "i", I: 0}, {Kind: "i", I: 12}, {Kind: "b", B: true}, {Kind: "b", B: false},
 	// values that are prefixes / suffixes of each other: (1,12) and (11,2) are different (class, directory) pairs
